@@ -347,12 +347,12 @@ def hashcons(root: Any) -> Any:
     return rebuild(root, fn)
 
 
-def duplicate_groups(root: Any) -> int:
+def duplicate_groups(root: Any, skip_kinds: tuple[str, ...] = ()) -> int:
     """Number of structurally equal pairs of distinct node objects reachable from root."""
     fp = Fingerprinter(with_neq_tags=True)
     seen: dict[str, int] = {}
     dups = 0
-    for n in walk(root):
+    for n in walk(root, skip_kinds=skip_kinds):
         k = fp.node(n)
         if k in seen:
             dups += 1
